@@ -43,6 +43,9 @@ type Input struct {
 	//                       validity (signingAuthority: authentic; x509: the level logs authenticTimestamp)
 	//   "emptySubjectLeaf"  the signing certificate has an empty subject DN (SAN-only certificate)
 	Variant string `json:"variant"`
+	// the caller supplied BOTH the context-aware validator and the deprecated client (iface = validator):
+	// the context-aware one decides, the deprecated client is not consulted (ignored by the model)
+	BothSupplied bool `json:"bothSupplied"`
 }
 
 type Obs struct {
@@ -187,7 +190,7 @@ func runCase(w *world, in Input, format string) Obs {
 		}
 		return out, nil
 	}
-	key := fmt.Sprint(n, in.Scheme, in.Iface, in.Action, in.IdentityPlugin, in.DeprecatedCtor, in.Variant)
+	key := fmt.Sprint(n, in.Scheme, in.Iface, in.Action, in.IdentityPlugin, in.DeprecatedCtor, in.Variant, in.BothSupplied)
 	w.uses++
 	lv := w.verifiers[key]
 	if lv == nil || w.uses%7 == 0 {
@@ -232,6 +235,11 @@ func runCase(w *world, in Input, format string) Obs {
 		}
 		if in.Iface == "validator" {
 			opts.RevocationCodeSigningValidator = rev
+			if in.BothSupplied {
+				// a deprecated client that would wave everything through: it must never be the one asked
+				decoy := &common.ScriptedRevocation{Results: common.UniformResults(revresult.ResultOK)}
+				opts.RevocationClient = decoy.ClientView()
+			}
 		} else {
 			opts.RevocationClient = rev.ClientView()
 		}
@@ -351,6 +359,7 @@ func Run(c *common.Ctx) error {
 								in := Input{Vec: vec, ChainLen: n, Scheme: scheme, Iface: iface, Action: action, ValidatorError: verr,
 									ErrorWithResults: verr && c.Rand.Intn(2) == 0, DeprecatedCtor: c.Rand.Intn(3) == 0,
 									IdentityPlugin: c.Rand.Intn(4) == 0}
+								in.BothSupplied = iface == "validator" && c.Rand.Intn(3) == 0
 								for k := 0; k < n; k++ {
 									in.Methods = append(in.Methods, methods[c.Rand.Intn(len(methods))])
 									in.ServerErrors = append(in.ServerErrors, c.Rand.Intn(4) == 0)
